@@ -2,7 +2,7 @@
 C09 — literal / pattern instructions map enum variants to primitive values both ways.
 Arm construction on the model; the runtime meaning of `match` (first arm that matches wins) is rustc's.
 -/
-import O2oModel.Expand
+import O2oModel.Lemmas.Blocks
 namespace O2o
 
 /-- C09-1: a variant carrying `#[literal(x)]` (and nothing else) converts into `x`: the Into arm is `Src::V <destr> => x,` -/
@@ -60,21 +60,34 @@ theorem C09_from_pattern (v : Variant) (ctx : ImplContext) (pt : PatAttr) (out :
       simp only [pure, Except.pure, Except.ok.injEq] at h
       exact ⟨init, h.symm⟩
 
-/-- C09 (default case, From side): the `_ => …` arm is emitted as the last arm whenever some variant carries a
+/-- C09 (arms are tried in variant declaration order): the generated `match` lists one arm per contributing variant in
+    declaration order, then the `#[ghosts]` arms, then the default arm — `rustc` tries them top to bottom -/
+theorem C09_arms_in_declaration_order (input : Enum) (ctx : ImplContext) (out : TS) (h : enumInitBlock input ctx = .ok out) :
+    ∃ arms ghostArms,
+      (input.variants.filter (variantContributes ctx)).mapM (renderEnumLine · ctx) = .ok arms ∧
+      (enumGhostData input ctx).mapM (renderEnumGhostLine · ctx) = .ok ghostArms ∧
+      out = [Tok.group .brace (arms.flatten ++ ghostArms.flatten ++ defaultArm input ctx)] := by
+  rw [enumInitBlock_eq] at h
+  cases h1 : (input.variants.filter (variantContributes ctx)).mapM (renderEnumLine · ctx) with
+  | error e => simp [h1, bind, Except.bind] at h
+  | ok arms =>
+    cases h2 : (enumGhostData input ctx).mapM (renderEnumGhostLine · ctx) with
+    | error e => simp [h1, h2, bind, Except.bind] at h
+    | ok gs =>
+      simp only [h1, h2, bind, Except.bind, pure, Except.pure, Except.ok.injEq] at h
+      exact ⟨arms, gs, rfl, rfl, h.symm⟩
+
+/-- C09 (default case, From side): the `_ => …` arm is emitted, as the last arm, whenever some variant carries a
     literal or a pattern -/
-theorem C09_default_case_emitted (input : Enum) (ctx : ImplContext) (dc : TS) (out : TS)
+theorem C09_default_case_emitted (input : Enum) (ctx : ImplContext) (dc : TS)
     (hk : ctx.kind.isFrom = true) (hd : ctx.structAttr.defaultCase = some dc)
-    (hv : input.variants.any (fun v => (v.attrs.lit ctx.ty).isSome || (v.attrs.pat ctx.ty).isSome) = true)
-    (h : enumInitBlock input ctx = .ok out) :
-    ∃ arms, out = [Tok.group .brace (arms ++ [Tok.ident "_"] ++ quoteAction dc none ctx)] := by
-  unfold enumInitBlock at h
-  simp only [bind, Except.bind] at h
-  split at h
-  · cases h
-  · split at h
-    · cases h
-    · rename_i arms _
-      simp only [hd, hk, hv, Bool.true_or, Bool.true_and, if_true, pure, Except.pure, Except.ok.injEq] at h
-      exact ⟨arms, by rw [← h]⟩
+    (hv : input.variants.any (fun v => (v.attrs.lit ctx.ty).isSome || (v.attrs.pat ctx.ty).isSome) = true) :
+    defaultArm input ctx = [Tok.ident "_"] ++ quoteAction dc none ctx := by
+  simp [defaultArm, hd, hk, hv, i]
+
+/-- without a default case nothing is added -/
+theorem C09_no_default_case (input : Enum) (ctx : ImplContext) (hd : ctx.structAttr.defaultCase = none) :
+    defaultArm input ctx = [] := by
+  simp [defaultArm, hd]
 
 end O2o
